@@ -329,14 +329,24 @@ def haplotype_mapping_fn():
     from inscripta.biocantor.gene.collections import AnnotationCollection
     from inscripta.biocantor.gene.gene import GeneInterval
 
-    GENES = [(2, 9), (12, 20)]
+    GENES0 = [(2, 9), (12, 20)]
+    # the same layout placed at offsets where the genes straddle or sit next to a 2^17 / 2^18 boundary (the binning scheme changes level there)
+    OFFS = [0, 131072 - 6, 131072 - 15, 131072 - 3, 131072 + 4, 262144 - 14]
+    LONG = {}
 
-    def fn(a, ra, ia, b, rb, ib):
-        a, ra, ia, b, rb, ib = concretize(a, ra, ia, b, rb, ib)
+    def fn(a, ra, ia, b, rb, ib, off=0):
+        a, ra, ia, b, rb, ib, off = concretize(a, ra, ia, b, rb, ib, off)
         with untraced():
+            O = OFFS[off]
+            REF0 = globals()["REF"]
+            if O and O not in LONG:
+                LONG[O] = (REF0 * ((O + 48) // len(REF0) + 1))[: O + 48]
+            REF = REF0 if not O else LONG[O]
+            GENES = [(O + s_, O + e_) for s_, e_ in GENES0]
+            a, b = a + O, b + O
             edits = [(a, a + ra, ALTS[ia]), (b, b + rb, ALTS[ib])]
             for vs, ve, alt in edits:
-                if ve > len(REF):
+                if ve > O + 24:
                     return True
                 for s_, e_ in GENES:  # a variant cutting a gene boundary is outside the property
                     if vs < e_ and s_ < ve and not (s_ <= vs and ve <= e_):
@@ -366,6 +376,43 @@ def haplotype_mapping_fn():
                     if seq != exp:
                         return False
             return set(mapping) <= {80, 81}
+
+    return fn
+
+
+def shared_variant_fn():
+    """ONE VariantInterval object handed to two collections that live on DIFFERENT reference sequences (collections re-parent their members in place): each
+    collection's alternative sequence is ITS OWN reference with the edit applied, in whatever order the two are built and read; likewise for collections of
+    two variants sharing one member"""
+    REF2 = "TTGACCGATAGGCTTAACGGATCC"  # 24 nt, differs from REF almost everywhere
+
+    def fn(vs, r, ia, order, nvar):
+        vs, r, ia, order, nvar = concretize(vs, r, ia, order, nvar)
+        with untraced():
+            alt = ALTS[ia]
+            if vs + r > 12:
+                return True
+            v = VariantInterval(vs, vs + r, alt, "SNV" if len(alt) == r else "indel", guid=70)
+            extra = [(16, 17, "G")] if nvar == 2 else []
+            refs = [REF, REF2]
+
+            def build(i):
+                members = [v] + [VariantInterval(a, b, al, "SNV", guid=71 + i) for a, b, al in extra]
+                return VariantIntervalCollection(members, guid=80 + i, parent_or_seq_chunk_parent=chrom_parent(refs[i]))
+
+            def ok_for(c, i):
+                return str(c.alternative_genomic_sequence) == _apply(refs[i], [(vs, vs + r, alt)] + extra)
+
+            if order == 0:      # build both, then read both
+                c0, c1 = build(0), build(1)
+                return ok_for(c0, 0) and ok_for(c1, 1) and ok_for(c0, 0)
+            if order == 1:      # read the first before the second exists
+                c0 = build(0)
+                a = ok_for(c0, 0)
+                c1 = build(1)
+                return a and ok_for(c1, 1) and ok_for(c0, 0)
+            c1, c0 = build(1), build(0)
+            return ok_for(c1, 1) and ok_for(c0, 0)
 
     return fn
 
@@ -453,9 +500,23 @@ def obligations(tier):
                    desc="a collection of three variants given in any order is refused exactly when some pair overlaps; accepted collections hold them sorted",
                    bounds="unbounded symbolic coordinates, 3 variants, every input order",
                    examples=[dict(v1s=10, v1l=3, v2s=12, v2l=1, v3s=20, v3l=1), dict(v1s=10, v1l=3, v2s=20, v2l=1, v3s=14, v3l=1)]))
+    out.append(Obl("variant_shared_by_two_collections", shared_variant_fn(), dict(vs=int, r=int, ia=int, order=int, nvar=int),
+                   lambda vs, r, ia, order, nvar: 0 <= vs and vs <= 10 and 1 <= r and r <= 2 and 0 <= ia and ia <= 3 and 0 <= order and order <= 2 and 1 <= nvar and nvar <= 2,
+                   budget=600, cost=40,
+                   desc="one VariantInterval object that is a member of two collections on different reference sequences: each collection's alternative_genomic_sequence is "
+                        "its own reference with the edits applied, whichever collection is built or read first (1- and 2-variant collections)",
+                   bounds="variant offsets 0..10, spans 1..2, alt lengths 0..3, 3 build/read orders, 1..2 variants per collection (realised)",
+                   examples=[dict(vs=5, r=1, ia=3, order=0, nvar=1), dict(vs=2, r=2, ia=0, order=1, nvar=2)]))
+    out.append(Obl("haplotype_mapping_at_bin_boundaries", haplotype_mapping_fn(), dict(a=int, ra=int, ia=int, b=int, rb=int, ib=int, off=int),
+                   lambda a, ra, ia, b, rb, ib, off: 0 <= a and a <= 21 and ra == 1 and 1 <= ia and ia <= 2 and 0 <= b and b <= 21 and rb == 1 and ib == 0 and 1 <= off and off <= 5
+                   and ((a % 3 == 0 and b % 4 == 1) or not quick), budget=900, cost=90, stubs=dict(bins="real"),
+                   desc="the same two-haplotype collection placed where its genes straddle or sit next to a 2^17 / 2^18 coordinate (real bins()): each haplotype is "
+                        "still mapped to exactly the genes its variant lies in, with the edited sequence",
+                   bounds="5 placements around 131072 / 262144 on a long chromosome, variant offsets as in haplotype_mapping_two_collections (realised)",
+                   examples=[dict(a=3, ra=1, ia=2, b=13, rb=1, ib=0, off=1), dict(a=15, ra=1, ia=1, b=5, rb=1, ib=0, off=2)]))
     out.append(Obl("haplotype_mapping_two_collections", haplotype_mapping_fn(), dict(a=int, ra=int, ia=int, b=int, rb=int, ib=int),
                    lambda a, ra, ia, b, rb, ib: 0 <= a and a <= 21 and 1 <= ra and ra <= 2 and 0 <= ia and ia <= 3 and 0 <= b and b <= 21 and 1 <= rb and rb <= 2
-                   and 0 <= ib and ib <= 3 and ((a % 3 == 0 and b % 2 == 1 and ra == 1 and rb == 1) or not quick), budget=600, cost=60,
+                   and 0 <= ib and ib <= 3 and ((a % 3 == 0 and b % 2 == 1 and ra == 1 and rb == 1) or not quick), budget=600 if quick else 5400, cost=60 if quick else 600,
                    desc="a collection built with two variant collections maps each haplotype to exactly the genes its variant lies in, each lifted onto that haplotype "
                         "alone (spliced sequence = reference gene with that one edit)", bounds="24-nt reference, two single-exon genes (+/-), one variant per haplotype at "
                         "every offset%s, spans 1..2, alt lengths 0..3 (realised)" % (" (a third / half of the offsets, span 1 in the quick tier)" if quick else ""),
